@@ -336,7 +336,8 @@ def apache_doc(rng, idx, outdir, fault_wanted):
         name_txt = randcase(rng, o['name']) if ci else o['name']
         body = name_txt + ''.join(gap() + render_arg(rng, v) for v in vals)
         noise()
-        lines.append(pad() + ('<' + body + '>' if o['section'] else body) + pad())
+        # blanks between the last argument and the closing bracket are layout, not an argument
+        lines.append(pad() + ('<' + body + (pad() if rng.random() < 0.4 else '') + '>' if o['section'] else body) + pad())
         lineno = len(lines)
         if fk in ('count', 'type'):
             state['fault'] = lineno; return False
@@ -359,7 +360,7 @@ def apache_doc(rng, idx, outdir, fault_wanted):
             close_name = randcase(rng, o['name']) if ci else name_txt
             if fk2 == 'mismatch':
                 close_name = name_txt + 'x'
-            lines.append(pad() + '</' + close_name + '>' + pad())
+            lines.append(pad() + '</' + close_name + (pad() if rng.random() < 0.3 else '') + '>' + pad())
             if fk2 == 'mismatch':
                 state['fault'] = len(lines); return False
             state['count'] += 1
